@@ -24,6 +24,17 @@ Lemma wfbI p :
   (0 < size (names p))%N -> uniq (names p) -> wfb p.
 Proof. by rewrite /wfb => -> -> -> -> -> -> ->; rewrite eqxx. Qed.
 
+(* index form of the denotation *)
+Lemma absE_index p i :
+  wfb p ->
+  absE n p i = \sum_(0 <= k < size (rows p)) cell (cols p) k i *: 'X_[mon n (names p) (nth [::] (rows p) k)].
+Proof.
+move=> wp; have [sz _ _ _ _] := wfbP wp.
+rewrite /absE /absL /terms (big_nth ([::], [::])) size_zip -sz minnn.
+rewrite big_nat_cond [RHS]big_nat_cond; apply: eq_bigr => k; rewrite andbT => /andP[_ lt].
+by rewrite /absT nth_zip.
+Qed.
+
 (* ---- align_shape --------------------------------------------------------------- *)
 Lemma absE_bcast s p i :
   (i < prodn s)%N -> absE n (bcast s p) i = absE n p (bidx (shape p) s i).
